@@ -34,8 +34,8 @@ Definition E_ARITH : Z := PE_ARITHMETIC_OVERFLOW.
 Record mach := mkMach {
   m_mem : list Z;     (* the whole allocation, length = capacity *)
   m_len : Z;          (* current data length *)
-  m_grow : Z;         (* number of growing reallocs requested so far *)
-  m_refuse : Z;       (* ordinal of the growing realloc that is refused; negative = none *)
+  m_grow : Z;         (* number of growing reallocs granted so far *)
+  m_refuse : Z;       (* 1 = the data access refuses growth during the current step (fault injection) *)
 }.
 Definition m_cap (s : mach) : Z := zlen (m_mem s).
 Definition set_mem (s : mach) (m : list Z) : mach := mkMach m (m_len s) (m_grow s) (m_refuse s).
@@ -51,20 +51,15 @@ Definition mmove (m : list Z) (dst src n : Z) : out (list Z) :=
 Definition rd32 (m : list Z) (a : Z) : out Z := do bs <- rd m a 4; Ok (le_decode bs).
 
 (* UnsizedTypeDataAccess::unsized_data_realloc (the harness buffer = a runtime account: capacity is
-   fixed, growth is zero-filled, the k-th growing request may be refused) *)
+   fixed, growth is zero-filled, growth may be refused for the duration of one step) *)
 Definition realloc (s : mach) (new_len : Z) : out mach :=
   let grows := m_len s <? new_len in
-  let s1 := if grows then mkMach (m_mem s) (m_len s) (m_grow s + 1) (m_refuse s) else s in
-  if grows && (m_grow s =? m_refuse s) then Err E_REALLOC
+  if grows && (m_refuse s =? 1) then Err E_REALLOC
   else if m_cap s <? new_len then Err E_REALLOC
   else if grows then
     do m' <- wr (m_mem s) (m_len s) (zrepeat 0 (new_len - m_len s));
-    Ok (mkMach m' new_len (m_grow s1) (m_refuse s))
-  else Ok (mkMach (m_mem s) new_len (m_grow s1) (m_refuse s)).
-
-(* a refused realloc still counts as a request: the counter is part of the state the next request sees *)
-Definition realloc_count_after_refusal (s : mach) : mach :=
-  mkMach (m_mem s) (m_len s) (m_grow s + 1) (m_refuse s).
+    Ok (mkMach m' new_len (m_grow s + 1) (m_refuse s))
+  else Ok (mkMach (m_mem s) new_len (m_grow s) (m_refuse s)).
 
 (* ---------------------------------------------------------------------------------------------- *)
 (* pointer trees                                                                                   *)
